@@ -58,6 +58,9 @@ type Env interface {
 	// DeliverUnsigned runs one message the way a message dispatched by a contract or another module account is run: routed
 	// to its handler on a branch of the block's state, kept on success - no signature, because the sender holds no key
 	DeliverUnsigned(msg sdk.Msg) TxResult
+	// DeliverGas delivers one message in a transaction with the given gas limit (seam A: a finite gas meter around the
+	// handler - running out of gas discards the transaction; seam B: the limit of the signed transaction)
+	DeliverGas(msg sdk.Msg, gas uint64) TxResult
 	// SetBlockGas sets the gas already consumed in the current block by other transactions
 	// (seam A: directly; seam B: ignored — real gas accumulates there).
 	SetBlockGas(g uint64)
@@ -139,6 +142,52 @@ func (e *EnvA) Deliver(msg sdk.Msg) (res TxResult) {
 }
 
 func (e *EnvA) DeliverUnsigned(msg sdk.Msg) TxResult { return e.Deliver(msg) }
+
+func (e *EnvA) DeliverGas(msg sdk.Msg, gas uint64) (res TxResult) {
+	if err := msg.ValidateBasic(); err != nil {
+		return TxResult{Err: err, Stage: "validate", Code: 1}
+	}
+	h := e.w.App.MsgServiceRouter().Handler(msg)
+	if h == nil {
+		return TxResult{Err: fmt.Errorf("no handler for %s", sdk.MsgTypeURL(msg)), Stage: "route", Code: 1}
+	}
+	txCtx, write := e.ctx.CacheContext()
+	txCtx = txCtx.WithEventManager(sdk.NewEventManager()).WithGasMeter(sdk.NewGasMeter(gas))
+	defer func() {
+		if r := recover(); r != nil { // running out of gas is a panic of the gas meter: the transaction fails, nothing is kept
+			res = TxResult{Err: fmt.Errorf("panic: %v", r), Panicked: true, Stage: "handler", Code: 111222}
+			if _, oog := r.(sdk.ErrorOutOfGas); oog {
+				res.Panicked, res.Code = false, 11
+			}
+		}
+	}()
+	r, err := h(txCtx, msg)
+	if err != nil {
+		return TxResult{Err: err, Stage: "handler", Code: 1}
+	}
+	write()
+	out := TxResult{GasUsed: int64(txCtx.GasMeter().GasConsumed()), GasWanted: int64(gas)}
+	if r != nil {
+		out.RespData = r.Data
+		out.Events = r.Events
+	}
+	return out
+}
+
+func (e *EnvB) DeliverGas(msg sdk.Msg, gas uint64) TxResult {
+	if err := msg.ValidateBasic(); err != nil {
+		return TxResult{Err: err, Stage: "validate", Code: 1}
+	}
+	var signers []Acct
+	for _, s := range msg.GetSigners() {
+		for _, n := range e.w.Order {
+			if e.w.Accts[n].Addr.Equals(s) {
+				signers = append(signers, e.w.Accts[n])
+			}
+		}
+	}
+	return e.deliverSignedGas([]sdk.Msg{msg}, signers, gas)
+}
 
 func (e *EnvB) DeliverUnsigned(msg sdk.Msg) (res TxResult) {
 	if err := msg.ValidateBasic(); err != nil {
@@ -409,7 +458,11 @@ func (e *EnvB) DeliverMulti(msgs []sdk.Msg) TxResult {
 
 // DeliverSigned delivers msgs signed by the given accounts (which may differ from GetSigners: C11).
 func (e *EnvB) DeliverSigned(msgs []sdk.Msg, signers []Acct) TxResult {
-	bz, err := e.SignTx(msgs, signers, TxGas)
+	return e.deliverSignedGas(msgs, signers, TxGas)
+}
+
+func (e *EnvB) deliverSignedGas(msgs []sdk.Msg, signers []Acct, gas uint64) TxResult {
+	bz, err := e.SignTx(msgs, signers, gas)
 	if err != nil {
 		return TxResult{Err: err, Stage: "sign", Code: 1}
 	}
